@@ -27,6 +27,7 @@ type concScenario struct {
 	Accounts []Account
 	Pre      []Op
 	Conc     []Op
+	Post     []Op // sequential requests after the concurrent ones have completed (before the probes)
 	LocalSeq uint64
 	Supis    []string
 }
@@ -55,6 +56,10 @@ func concScenarios() []concScenario {
 		{Name: "update-update-two-subscribers", Accounts: one, Pre: []Op{crA1, crB, upd0, usageOp("update", 1, 1, 70, 0, 501)}, Conc: []Op{usageOp("update", 0, 1, 100, 100, 600), usageOp("update", 1, 1, 30, 70, 601)}},
 		{Name: "partial-record-two-subscribers", Accounts: one, Pre: []Op{crA1, crB}, Conc: []Op{usageOp("update", 0, 1, 100, 0, 600, "VOLIMM"), usageOp("update", 1, 1, 30, 0, 601, "VOLIMM")}},
 		{Name: "create-create-create", Accounts: one, Conc: []Op{crA1, crA2, crB}},
+		// a create that is rejected after the record counter has moved (pDUSessionChargingInformation without pduSessionInformation)
+		// next to a successful create of another subscriber, then one more create of that subscriber and consumer
+		{Name: "rejected-create-create", Accounts: one, Conc: []Op{func() Op { c := mkCreate(0, "smf1"); c.NoPSI = true; return c }(), crB},
+			Post: []Op{func() Op { c := mkCreate(1, "smf1"); c.CID = 13; return c }()}},
 		{Name: "update-update-recharge", Accounts: []Account{{supiA, 1, "150", "2"}}, Pre: []Op{crA1, crA2, usageOp("update", 0, 1, 100, 0, 500)}, Conc: []Op{usageOp("update", 0, 1, 100, 75, 600), usageOp("update", 1, 1, 20, 0, 601), {K: "recharge", U: 0, RG: 1, Amt: 400}}},
 	}
 }
@@ -143,6 +148,11 @@ func concScenarioFn(sc concScenario, perm []int, noCredit ...bool) func() schedS
 						for k := range sc.Conc {
 							h.Sess = append(h.Sess, newSess[k]...)
 						}
+					}
+					vs.Quiesce()
+					// sequential requests after the concurrent phase (their creates are named <ref-of-request-k> as well)
+					for _, op := range sc.Post {
+						results = append(results, w.execMore(supis, h, []Op{op})[0])
 					}
 					vs.Quiesce()
 					sctx.Results["results"] = results
@@ -247,7 +257,7 @@ func concScenarioFn(sc concScenario, perm []int, noCredit ...bool) func() schedS
 						add(st)
 					}
 					if perm == nil { // (in the serial reference runs the requests are already part of the history)
-						for _, st := range results {
+						for _, st := range results[:min(len(results), len(sc.Conc))] {
 							add(st)
 						}
 					}
@@ -311,7 +321,7 @@ func init() {
 	}
 	checks["C09"] = func(t *testing.T) int { return concCheck(t, "C09") }
 	c10Schedules = func(t *testing.T, rep *Report, pool *Pool) any {
-		return runConc(t, rep, pool, []string{"create-create-new-supi", "create-create-two-subscribers", "create-create-known-supi", "create-create-same-consumer", "create-create-same-consumer-new-supi", "create-create-prefix-supis", "create-create-create"})
+		return runConc(t, rep, pool, []string{"create-create-new-supi", "create-create-two-subscribers", "create-create-known-supi", "create-create-same-consumer", "create-create-same-consumer-new-supi", "create-create-prefix-supis", "create-create-create", "rejected-create-create"})
 	}
 }
 
